@@ -222,7 +222,20 @@ NullReps == [
   varchar |-> {"string", "bytes", "runes"}, ascii |-> {"string", "bytes", "runes"} ]
 NullTable == {[fam |-> "null", cql |-> t, reps |-> NullReps[t]] : t \in DOMAIN NullReps}
 
-AllCases == IntCases \cup DurationCases \cup DurationOverflow \cup DecimalCases \cup SimpleCases \cup FloatNarrow \cup CollCases \cup NullTable
+\* NULL decoded into every kind of destination a container type accepts (doc.go), each pre-filled by the harness
+NullCollTable == {[fam |-> "nullcoll", kind |-> "list", dests |-> {"slice", "array", "iface"}],
+                  [fam |-> "nullcoll", kind |-> "set", dests |-> {"slice", "array", "iface"}],
+                  [fam |-> "nullcoll", kind |-> "map", dests |-> {"map", "iface"}],
+                  [fam |-> "nullcoll", kind |-> "tuple", dests |-> {"slice", "array", "struct", "iface"}],
+                  [fam |-> "nullcoll", kind |-> "udt", dests |-> {"map", "struct", "slice", "array", "iface"}]}
+\* collections whose element count needs the full width of the count field: n copies of the int 1; the bytes are
+\* head followed by n times elem (given in this form so that TLC does not have to build 65535-element sequences)
+BigCollCase(n, v2) == [fam |-> "bigcoll", kind |-> "list", n |-> n, v2 |-> v2,
+                       head |-> IF v2 THEN Short2(n) ELSE Int4(n),
+                       elem |-> IF v2 THEN ElemV2(<<I32(1)>>) ELSE ElemV3(<<I32(1)>>)]
+BigCollCases == {BigCollCase(n, v2) : n \in {255, 256, 32767, 32768, 65535}, v2 \in BOOLEAN} \cup {BigCollCase(65536, FALSE)}
+
+AllCases == NullCollTable \cup BigCollCases \cup IntCases \cup DurationCases \cup DurationOverflow \cup DecimalCases \cup SimpleCases \cup FloatNarrow \cup CollCases \cup NullTable
 
 VARIABLE x
 Init == x = 0 /\ \A c \in AllCases : PrintT(<<"CQL", ToJson(c)>>)
